@@ -259,7 +259,7 @@ func pqCrashHistory(rep *Report, m *model.Client, cfg pqengine.Config, ops []pqe
 // ---------------------------------------------------------------------------------------------
 // C12: space bound and full-file behaviour
 
-func c12Cycle(rep *Report, cfg pqengine.Config, hseed int64, cycles int) {
+func c12Cycle(rep *Report, cfg pqengine.Config, hseed int64, cycles int, tight bool) {
 	r := rand.New(rand.NewSource(hseed))
 	e, err := pqengine.New(cfg)
 	if err != nil {
@@ -303,6 +303,14 @@ func c12Cycle(rep *Report, cfg pqengine.Config, hseed int64, cycles int) {
 			n := 1 + r.Intn(3*int(cfg.PageSize))
 			if r.Intn(4) == 0 {
 				n = 1 + r.Intn(64)
+			}
+			if tight && r.Intn(2) == 0 {
+				// an event that ends within a few bytes of the end of the write buffer: the implicit flush
+				// happens in Next (not in Write)
+				if _, avail, _, _ := pq.VerifWriterState(e.W); avail > 12 {
+					n = avail - r.Intn(10)
+					rep.count("c12:events-ending-at-the-buffer-end", 1)
+				}
 			}
 			res := e.Apply(pqengine.Op{Kind: "event", N: n, Seed: c*1000 + i})
 			if res == "oom" {
@@ -355,7 +363,7 @@ func c12Cycle(rep *Report, cfg pqengine.Config, hseed int64, cycles int) {
 	if len(e.Failures) > 0 {
 		rep.violate(Violation{Kind: "oracle", Sig: "pq-space/" + failSig(e.Failures[0]),
 			Detail: e.Failures[0] + " on " + cfg.String(),
-			Replay: pqReplay{Config: cfg, Failures: e.Failures, Log: tailLog(e.Log, 2000), Seed: hseed, Mode: fmt.Sprintf("c12 cycles=%d", cycles)}})
+			Replay: pqReplay{Config: cfg, Failures: e.Failures, Log: tailLog(e.Log, 2000), Seed: hseed, Mode: fmt.Sprintf("c12 cycles=%d tight=%v", cycles, tight)}})
 	}
 }
 
@@ -601,9 +609,9 @@ func init() {
 	register("c12", func(args []string) int {
 		f := parseFlags("c12", args)
 		rep := newReport("C12", f)
-		rep.Rule = "fill-to-error / drain cycles on bounded files of 64-256 pages (and unbounded ones): events of 1 byte .. 3 pages are appended until Write/Next/Flush reports the file full, then everything flushed is read and ACKed (partially, then completely), space accounting after every ACK: data pages held by the file <= 1 (queue header) + ceil(framed un-ACKed bytes / payload) + pages of the most recent event + 2; counters; the events buffered while the file was full must be flushed by a later call and delivered in order (slice-of-events oracle, final drain). Non-trivial: every run (distinct config, seed, traffic)."
+		rep.Rule = "fill-to-error / drain cycles on bounded files of 64-256 pages (and unbounded ones): events of 1 byte .. 3 pages (in every other run half of them sized to end within 10 bytes of the end of the write buffer, so that the implicit flush happens in Next) are appended until Write/Next/Flush reports the file full, then everything flushed is read and ACKed (partially, then completely), space accounting after every ACK: data pages held by the file <= 1 (queue header) + ceil(framed un-ACKed bytes / payload) + pages of the most recent event + 2; counters; the events buffered while the file was full must be flushed by a later call and delivered in order (slice-of-events oracle, final drain). Non-trivial: every run (distinct config, seed, traffic)."
 		r := rand.New(rand.NewSource(f.seed))
-		n, cycles := 20, 8
+		n, cycles := 36, 8
 		if f.tier == "thorough" {
 			n, cycles = 300, 60
 		}
@@ -617,7 +625,7 @@ func init() {
 		}
 		for i := 0; i < n; i++ {
 			hseed := r.Int63()
-			c12Cycle(rep, cfgs[i%len(cfgs)], hseed, cycles)
+			c12Cycle(rep, cfgs[i%len(cfgs)], hseed, cycles, (i/len(cfgs))%2 == 1)
 			if i < 1 {
 				rep.sample(map[string]interface{}{"config": cfgs[i%len(cfgs)].String(), "cycles": cycles})
 			}
@@ -656,7 +664,7 @@ func init() {
 	register("c17", func(args []string) int {
 		f := parseFlags("c17", args)
 		rep := newReport("C17", f)
-		rep.Rule = "random producer/consumer/reopen histories (as C05); after EVERY operation Pending(), Active(), Reader.Available() (inside a read transaction) and the running totals of the Flushed / ACKed callbacks are compared with the event history of the slice-of-events model (flushed - acked, visible - consumed, totals). Non-trivial: distinct op statistics."
+		rep.Rule = "random producer/consumer/reopen histories (as C05); after EVERY operation Pending(), Active(), Reader.Available() (inside a read transaction) and the running totals of the Flushed / ACKed callbacks are compared with the event history of the slice-of-events model (flushed - acked, visible - consumed, totals); plus fill-to-error / drain cycles on bounded files (failing flushes that are retried). Non-trivial: distinct op statistics."
 		if f.replay != "" {
 			rp, err := loadPQReplay(f.replay)
 			if err != nil {
@@ -699,6 +707,14 @@ func init() {
 			if i < 2 {
 				rep.sample(map[string]interface{}{"config": cfg.String(), "ops": trunc(pqOpKinds(ops), 400)})
 			}
+		}
+		// full files: flushes that fail with events buffered and are retried after the consumer ACKed
+		// (counters and callback totals are compared after every event / flush / ACK inside c12Cycle)
+		full := []pqengine.Config{{PageSize: 1024, MaxSize: 64 * 1024, WriteBuffer: 0}, {PageSize: 1024, MaxSize: 96 * 1024, WriteBuffer: 4096},
+			{PageSize: 1024, MaxSize: 128 * 1024, WriteBuffer: 16 * 1024}}
+		for i := 0; i < n/20+2; i++ {
+			c12Cycle(rep, full[i%len(full)], r.Int63(), 6, i%2 == 1)
+			rep.count("full-file-cycles", 1)
 		}
 		return rep.finish(f)
 	})
